@@ -4,7 +4,7 @@
 (* Every operator returns a set of failure records [p, why, key]; the empty  *)
 (* set means the contract holds.  `key` names a listed known finding when    *)
 (* the failure is exactly that finding's deviation, else "".                 *)
-EXTENDS Ranking, Utility, Req
+EXTENDS Ranking, Utility, Majority, Req
 
 Fail(p, why, key) == [p |-> p, why |-> why, key |-> key]
 
@@ -70,6 +70,75 @@ C04(o) ==
           (IF \A i \in DOMAIN res : RLinks(res[i]) = VLinks(v, S, res[i].alternative.id)
               /\ NoDup(res[i].betterThanOrSameAs)
            THEN {} ELSE {Fail("C04", "links", "")})
+
+
+(* ---- C11: majority heuristic = sequential pairwise tournament ---- *)
+StX(st) == [a \in AltIdsOf(StAllAlts(st)) |-> AltById(StAllAlts(st), a).criteria]
+MajCtx(st) == [C |-> StCritIds(st), w |-> st.params.Weights, ty |-> StType(st), x |-> StX(st)]
+MajPolicy(st) == IF st.params.DrawResolution = "" THEN "allow" ELSE st.params.DrawResolution
+ConsideredSeq(st) == [k \in DOMAIN st.considered |-> st.considered[k].id]
+MajFixedOrder(st) ==
+  LET cur == st.params.CurrentChoice IN
+  IF cur = "" THEN ConsideredSeq(st)
+  ELSE <<cur>> \o SelectSeq(ConsideredSeq(st), LAMBDA a : a # cur)
+
+ObsEntries(res) == [k \in DOMAIN res |->
+   [id |-> res[k].alternative.id, value |-> res[k].evaluation.value,
+    cmp |-> res[k].evaluation.comparedWith, cmpValue |-> res[k].evaluation.comparedAlternativeValue]]
+(* what the property determines of an entry: the winner's own reported value is left open *)
+Determined(es) == [k \in DOMAIN es |->
+   IF es[k].cmp = "" THEN [id |-> es[k].id, cmp |-> ""]
+   ELSE [id |-> es[k].id, value |-> es[k].value, cmp |-> es[k].cmp, cmpValue |-> es[k].cmpValue]]
+RefEntries(r) == [k \in DOMAIN r |-> [id |-> r[k].id, value |-> r[k].value, cmp |-> r[k].cmp, cmpValue |-> r[k].cmpValue]]
+
+MajRef(st, order, pol, ch) == MRanking(MFinish(MRun(MInit(order), MajCtx(st), pol, ch)))
+
+(* all search orders the heuristic may use: the current choice (if any) first *)
+MajOrders(st) ==
+  IF ~st.params.RandomAlternativesOrdering THEN {MajFixedOrder(st)}
+  ELSE LET cur == st.params.CurrentChoice
+           rest == SeqSet(ConsideredSeq(st)) \ {cur}
+       IN IF cur = "" THEN PermsOf(rest) ELSE {<<cur>> \o p : p \in PermsOf(rest)}
+MajChoices(st, n) == IF MajPolicy(st) = "random" THEN [2..n -> {"current", "newer"}] ELSE {<<>>}
+
+C11(o) ==
+  LET st == EvalState(o)
+      res == Res(o)
+      es == ObsEntries(res)
+      ids == [k \in DOMAIN es |-> es[k].id]
+      ctx == MajCtx(st)
+      pol == MajPolicy(st)
+      n == Len(es)
+      entryOK(k) ==
+        LET e == es[k] IN
+        /\ e.cmp \in SeqSet(ids) /\ e.cmp # e.id
+        /\ e.value = MScoreOf(ctx, e.id, e.cmp)
+        /\ e.cmpValue = MScoreOf(ctx, e.cmp, e.id)
+        /\ e.value <= e.cmpValue
+        /\ IndexOf(ids, e.cmp) < k
+        /\ (e.cmp \in RLinks(res[k]) => (pol = "allow" /\ e.value = e.cmpValue))
+      fixed == ~st.params.RandomAlternativesOrdering
+      ord == MajFixedOrder(st)
+      (* with a known search order a drawn comparison must be decided by the policy *)
+      drawOK(k) ==
+        LET e == es[k] IN
+        (fixed /\ e.cmp # "" /\ e.cmp \in SeqSet(ord) /\ e.id \in SeqSet(ord) /\ e.value = e.cmpValue) =>
+           (IF pol \in {"allow", "current"} THEN IndexOf(ord, e.cmp) < IndexOf(ord, e.id)
+            ELSE IF pol = "newer" THEN IndexOf(ord, e.id) < IndexOf(ord, e.cmp)
+            ELSE TRUE)
+      searchable == n <= (IF Has(o.case, "refmax") THEN o.case.refmax ELSE 5) \/ (fixed /\ pol # "random")
+  IN IF ~NoDup(ids) \/ n = 0 THEN {Fail("C11", "entries", "")}
+     ELSE (IF es[1].cmp = "" /\ \A k \in 2..n : es[k].cmp # "" THEN {} ELSE {Fail("C11", "winner", "")})
+          \cup (IF \A k \in 2..n : es[k].cmp = "" \/ entryOK(k) THEN {} ELSE {Fail("C11", "entry", "")})
+          \cup (IF \A k \in 1..n : drawOK(k) THEN {} ELSE {Fail("C11", "draw-policy", "")})
+          \cup (IF ~searchable THEN {}
+                ELSE IF \E order \in MajOrders(st) : \E ch \in MajChoices(st, n) :
+                          Determined(RefEntries(MajRef(st, order, pol, ch))) = Determined(es)
+                THEN {} ELSE {Fail("C11", "reference", "")})
+          \cup (IF searchable /\ fixed /\ pol # "random" /\ NoDup(ids)
+                   /\ \E k \in 1..n : RLinks(res[k]) # MajRef(st, ord, pol, <<>>)[k].links
+                   /\ Determined(RefEntries(MajRef(st, ord, pol, <<>>))) = Determined(es)
+                THEN {Fail("DRIFT", "majority-links", "")} ELSE {})
 
 (* summary of one alternative that must not depend on the listing order *)
 PermSummary(o) ==
